@@ -419,9 +419,9 @@ def check_join(ctx, fx, cfg, RULE):
 
 def check_forwarding(ctx, fx, cfg):
     # R17.3
-    def one_call(fn_name, callee, inst, recv_field=None):
+    def one_call(fn_name, callee, inst, recv_field=None, RULE="R17.3"):
         f = fx.fn(fn_name)
-        if not ctx.require(f is not None, "R17.3", inst + "@" + cfg, "%s not found" % fn_name):
+        if not ctx.require(f is not None, RULE, inst + "@" + cfg, "%s not found" % fn_name):
             return None
         fam = [g for g in graph.family(fx, fn_name) if g["kind"] in ("assoc_fn", "fn", "coroutine")]
         # ... plus synchronous helper methods it calls on its own handle (`self.stop_and_join()`)
@@ -437,11 +437,11 @@ def check_forwarding(ctx, fx, cfg):
         for g in fam:
             gb = ctx.body(fx, g)
             hits += [(g, gb, t) for _, t in gb.normal_calls() if t.get("callee") == callee]
-        if not ctx.require(len(hits) == 1, "R17.3", inst + "@" + cfg, "%s must call %s exactly once" % (fn_name, callee), fn=fn_name, site=f["loc"]):
+        if not ctx.require(len(hits) == 1, RULE, inst + "@" + cfg, "%s must call %s exactly once" % (fn_name, callee), fn=fn_name, site=f["loc"]):
             return None
         g, gb, t = hits[0]
         rs = roots(gb, t["args"][0]) if t["args"] else set()
-        ctx.require(all(r.kind in ("arg", "upvar") for r in rs), "R17.3", inst + ":on-self@" + cfg, "%s acts on something else than its own handle" % fn_name, fn=fn_name, site=t["l"])
+        ctx.require(all(r.kind in ("arg", "upvar") for r in rs), RULE, inst + ":on-self@" + cfg, "%s acts on something else than its own handle" % fn_name, fn=fn_name, site=t["l"])
         return g, gb, t
     h = one_call("addr::OwningAddr::<A>::join", "actor::spawner::actor_handle::ActorHandle::<A>::join", "join-forwards")
     if h:
@@ -467,6 +467,17 @@ def check_forwarding(ctx, fx, cfg):
         g, gb, t = h
         rs = roots(gb, {"k": "move", "p": [0]})
         ctx.require(all(r.kind == "arg" for r in rs) and rs, "R17.3", "detach-returns-own-addr@" + cfg, "detach must return the owning address's own Addr", fn=g["def"], site=g["loc"])
+    # R17.6 "otherwise an OwningAddr behaves as a strong handle": its message operations are those of the address it owns — a
+    # submission made through the owner waits, is ordered and is answered exactly as one made through `to_addr()`
+    for op in ("send", "call", "ping"):
+        if fx.fn("addr::OwningAddr::<A>::" + op) is None:
+            continue
+        h = one_call("addr::OwningAddr::<A>::" + op, "addr::Addr::<A>::" + op, op + "-is-the-address's", RULE="R17.6")
+        if h:
+            g, gb, t = h
+            # ... and hands back what that operation answered
+            ok = t["dest"] == [0] or any(s_["k"] == "ret" for s_ in sinks(gb, t["dest"][0])) or any(o.kind == "await" for o in gb.origins([0]))
+            ctx.require(ok, "R17.6", "%s-answer@%s" % (op, cfg), "OwningAddr::%s must hand back what the address's %s answered" % (op, op), fn=g["def"], site=t["l"])
     for nm in ("to_addr", "as_addr"):
         f = fx.fn("addr::OwningAddr::<A>::" + nm)
         if ctx.require(f is not None, "R17.3", nm + "@" + cfg, "OwningAddr::%s not found" % nm):
